@@ -394,10 +394,6 @@ impl Prioritize {
             // capacity, and so we shouldn't "transition" on it, but just evict
             // it and continue the loop.
             if !(stream.state.is_send_streaming() || stream.buffered_send_data > 0) {
-                // The stream has just left its last queue: let it be released
-                // if nothing else refers to it, or it stays in the store
-                // forever.
-                counts.transition(stream, |_, _| {});
                 continue;
             }
 
